@@ -2,10 +2,12 @@ from propcommon import COMMON_MODELLED
 PROP = dict(
     gotest="TestC10",
     translator="arithC10",
-    extra_props=["ArithTieC10"],
+    extra_props=["ArithTieC10", "ArithTieC10b"],
     model="coq/Models/CloseGuard.v (decision layer of x/leveragelp and x/perpetual as coded: liquidation / stop-loss / take-profit guards with their exact comparison "
-          "operators and nil handling, per-item loops of both MsgClosePositions handlers, the leveragelp begin-block sweep, open health comparison, sender-keyed user close)",
-    coq_deps=["Base/Res.v", "Models/CloseGuard.v", "Proofs/CloseGuardProofs.v", "Run/CloseGuardRun.v", "Props/C10.v", "Base/Zdec.v", "Base/ZdecChk.v", "Generated/ArithC10.v", "Proofs/ArithTieTac.v", "Proofs/ArithTieC10.v", "Props/ArithTieC10.v"],
+          "operators and nil handling, per-item loops of both MsgClosePositions handlers, the leveragelp begin-block sweep, open health comparison, sender-keyed user close); "
+          "coq/Models/Health.v (exact: leveragelp GetPositionHealth as a function of the exit value of the committed shares and the debt record; perpetual GetMTPHealth as a "
+          "function of side, Liabilities, BorrowInterestUnpaidLiability, Custody and the swap estimates, with its degenerate cases)",
+    coq_deps=["Base/Res.v", "Models/CloseGuard.v", "Proofs/CloseGuardProofs.v", "Run/CloseGuardRun.v", "Props/C10.v", "Base/Zdec.v", "Base/ZdecChk.v", "Generated/ArithC10.v", "Proofs/ArithTieTac.v", "Proofs/ArithTieC10.v", "Props/ArithTieC10.v", "Models/Health.v", "Proofs/HealthProofs.v", "Run/HealthRun.v", "Proofs/ArithTieC10b.v", "Props/ArithTieC10b.v"],
     rule="histories of 26-41 ops on a fresh real app each (oracle pool uusdc/uatom with leveragelp + perpetual enabled, funded vault): leveraged-LP and perpetual opens "
          "(leverage 1.2-10, long/short, uusdc/uatom collateral, stop-loss unset / far / one ulp from the price / already reached), consolidating re-opens, user closes by the "
          "owner and by others naming the owner's id, trigger updates by owner and non-owner, MsgClosePositions of both modules from arbitrary senders with 1-4 items (healthy, "
@@ -19,6 +21,10 @@ PROP = dict(
                   "CheckAndCloseAtStopLoss / CheckAndCloseAtTakeProfit (both modules, by position side) and of the open-time health checks to the guard functions of Models/CloseGuard.v; "
                   "what GetPositionHealth / GetMTPHealth / GetSafetyFactor / GetAssetPrice / LpTokenPrice return, that a pointer passed as an argument (SetMTP, hooks) is not written "
                   "through between `mtp.MtpHealth = h` and the test, and the order of the steps around the guards, are covered by the correspondence run only",
+                  "MOVED from 'taken from the implementation' to 'modelled exactly': the two health FORMULAS (Models/Health.v; every health value read from the keepers in a history "
+                  "is emitted with its inputs - HLev: ExitPoolEst amount, Borrowed / InterestStacked / InterestPaid; HPerp: MTP fields and the EstimateSwapGivenOut result of the "
+                  "side - and recomputed by Coq, Run/HealthRun.v; Props/ArithTieC10b.v ties the Go text). Still inputs: the exit estimate and the swap estimates themselves "
+                  "(amm pricing: C03/C05 models), the debt record (C06/C07), settlement amounts",
                   "health values, lp / oracle prices, settled interest and funding amounts and pay-outs are read from the implementation (recomputed on throw-away contexts "
                   "with the keepers' own GetPositionHealth / GetMTPHealth / LpTokenPrice / settlement functions): the link health value <-> economic value is taken as given, "
                   "except for leveraged-LP health, which is ALSO recomputed from first principles (amm ExitPoolEst of the shares committed at the position address in uusdc over "
@@ -37,7 +43,7 @@ PROP = dict(
                "(C10_open_healthy_prefix_refuted, observed numbers; harness signature C10:open-unhealthy:perpetual); for leveragelp it holds whenever the compared value is the final health (C10_open_healthy_partial). Tied to the code by replaying every observed close-positions tx, sweep, open and user close of generated "
                "histories on the real app through the model (vm_compute) and diffing positions, balances and verdicts; the property's own predicate is evaluated on the real "
                "state with independently recomputed health at the moment of every item.",
-    level_note="Trusted: Coq kernel+VM; the Go harness; health/price/settlement values come from the implementation's own functions. Open statement: full for perpetual, partial for leveragelp "
+    level_note="Trusted: Coq kernel+VM; the Go harness; price/settlement values and the estimates the health formulas start from come from the implementation's own functions (the formulas themselves are modelled: C10_lev_liq_guard_means_value_below_debt_times_sf, C10_perp_liq_guard_means_custody_below_owed_times_sf). Open statement: full for perpetual, partial for leveragelp "
                "(its handler compares the health computed right after the pool join; the harness checks on every observed open that it equals the final health).",
     assumptions=["single oracle pool uusdc/uatom (the fixture's) for both modules", "C10_open_healthy_partial assumes the value compared by the handler is the final health "
                  "(observed true for leveragelp on every open of every run; perpetual re-checks the final health itself)"],
